@@ -26,6 +26,9 @@ while True: time.sleep(10)
 '''
 
 
+SOCK_CASES = []
+
+
 def sim_cases(ctx, pexpect, n):
     rng = ctx.rng
     cases = []
@@ -79,6 +82,13 @@ def sim_cases(ctx, pexpect, n):
                                     clist(['(%s, %s)' % (cnat(s_), cbool(t_)) for s_, t_ in calls]))
         cases.append((inp, obs, {'transport': ['pty', 'fd', 'socket'][which], 'buf0': list(buf0), 'open': open0, 'alive': alive0,
                                  'sched': repr(sched), 'calls': calls}))
+        if which == 2:
+            owns = [T.SOCK_OWN_MS[i % len(T.SOCK_OWN_MS)] for i in range(len(calls))]
+            sinp = '(%s, %s, %s, %s)' % (T.coq_kern(buf0, open0, alive0), T.coq_sched(sched),
+                                         clist(['(%s, %s)' % (cnat(s_), cbool(t_)) for s_, t_ in calls]),
+                                         clist(['None' if o is None else '(Some (%d)%%Z)' % o for o in owns]))
+            SOCK_CASES.append((sinp, [[([] if a is None else [a]), [([] if v is None else [v]) for v in lg]] for a, lg in c._verif_sock],
+                               {'calls': calls, 'sched': repr(sched)}))
     ctx.oracle_stats['simulated_kernel_runs'] = dict(dist)
     return cases
 
@@ -278,6 +288,7 @@ def run(ctx):
     cases = sim_cases(ctx, pexpect, 30000 if thorough else 4000)
     if os.path.exists(os.path.join(common.COQ, 'Transport/Run.vo')):
         ctx.run_cases('read-sim', ['Transport.Model', 'Transport.Run'], 'run_transport', 'nat * kern * sched * list (nat * bool)', cases, shard=400)
+        ctx.run_cases('sock-timeouts', ['Transport.Model', 'Transport.Run'], 'run_sock_timeouts', 'kern * sched * list (nat * bool) * list (option Z)', SOCK_CASES, shard=400)
     else:
         ctx.corr_broken.append(('read-sim', {'error': 'model did not build'}))
     if os.path.exists(os.path.join(common.COQ, 'Transport/Run.vo')):
